@@ -22,7 +22,7 @@ from hypothesis import strategies as st
 from . import core, s4u
 
 DRIVER = "s4u_wf"
-EXT_VERSION = "wf-ext-v2"
+EXT_VERSION = "wf-ext-v3"
 SPEED = 1024.0
 BW = 1024.0
 LAT = 0.5
@@ -30,7 +30,7 @@ LOOP_BW = 1e10            # network/loopback-bw default, latency 0
 DISK_R, DISK_W = 1024.0, 512.0
 DAX_FLOPS = 4200000000.0  # src/dag/loaders.cpp: "Assume that timings were done on a 4.2GFlops machine"
 
-QUARTER_DATES = st.integers(0, 48).map(lambda k: k / 4)
+QUARTER_DATES = st.integers(1, 48).map(lambda k: k / 4)     # > 0: the build phase (date 0) is over when the timeline actor acts
 
 
 # ------------------------------------------------------------------------------------------------ generator
@@ -44,7 +44,7 @@ def dags(draw, max_nodes=30, kinds=("exec", "comm", "io")):
         if kind == "exec":
             amount = draw(st.sampled_from([0.0, 256.0, 512.0, 1024.0, 1024.0, 2048.0, 3072.0, 1000.0]))
         elif kind == "comm":
-            amount = draw(st.sampled_from([0.0, 1.0, 256.0, 512.0, 1024.0, 1024.0, 2048.0, 1500.0]))
+            amount = draw(st.sampled_from([1.0, 256.0, 512.0, 1024.0, 1024.0, 2048.0, 1500.0, 256.0, 512.0, 1024.0, 3072.0, 768.0, 0.0]))
         else:
             amount = draw(st.sampled_from([0.0, 256.0, 512.0, 1024.0, 2048.0]))
         nodes.append({"kind": kind, "amount": amount})
@@ -123,7 +123,7 @@ def dax_cases(draw, max_jobs=10):
     nfiles = draw(st.integers(0, min(8, 2 * njobs)))
     files = []
     for f in range(nfiles):
-        size = draw(st.sampled_from([0, 1, 256, 512, 1024, 1024, 2048, 1000000]))
+        size = draw(st.sampled_from([1, 256, 512, 1024, 1024, 2048, 1000000, 256, 512, 768, 1024, 3072, 0]))
         cut = draw(st.integers(0, njobs))                  # producers have an index < cut <= consumers: no cycle
         prods = draw(st.lists(st.integers(0, cut - 1), unique=True, max_size=2 if draw(st.integers(0, 5)) == 0 else 1)) if cut > 0 else []
         cons = draw(st.lists(st.integers(cut, njobs - 1), unique=True, max_size=3)) if cut < njobs else []
@@ -214,6 +214,18 @@ def graph(case):
         nd["name"] = "n%d" % v
         nodes.append(nd)
     return nodes, case["edges"]
+
+
+def effective_where(case, nodes, edges):
+    """where each node really runs: the JSON loader takes the source of a transfer from its single parent when it can"""
+    res = [nd["where"] for nd in nodes]
+    if case["mode"] == "json":
+        pre = json_preassigned(case)
+        for v, nd in enumerate(nodes):
+            if nd["kind"] == "comm" and "src" in pre[nd["name"]]:
+                p = [u for u, w in edges if w == v][0]
+                res[v] = [nodes[p]["where"], nd["where"][1]]
+    return res
 
 
 def duration(nd, where, speeds):
@@ -330,8 +342,10 @@ def scenario(case, path=None):
         build.append(["wf_load", mode, path])
         pre = json_preassigned(case) if mode == "json" else {}
     else:
+        haspred0 = {w for _, w in edges}
         for v, nd in enumerate(nodes):
-            opts = dict(assignment(nd, v)) if nd["assign"] == "create" else {}
+            # (a comm is started by its assignment: one that has predecessors is only assigned once they are declared)
+            opts = dict(assignment(nd, v)) if nd["assign"] == "create" and not (nd["kind"] == "comm" and v in haspred0) else {}
             if nd["kind"] == "exec":
                 if nd.get("via") == "exec_init":
                     opts = {"via": "exec_init"}
@@ -343,15 +357,21 @@ def scenario(case, path=None):
         for u, w in edges:
             build.append(["wf_dep", u, w])
 
+    haspred = {w for _, w in edges}
+
     def missing(v):
         a = assignment(nodes[v], v)
         return {k: x for k, x in a.items() if k not in pre.get(nodes[v]["name"], set())}
 
     for v, nd in enumerate(nodes):
-        if nd["assign"] == "before":
+        if nd["assign"] == "before" or (nd["assign"] == "create" and nd["kind"] == "comm" and v in haspred and mode not in ("json", "dax")):
             build.append(["wf_assign", ref(v), assignment(nd, v)])
     for v, nd in enumerate(nodes):
         if nd["start"] == "build":
+            if nd["kind"] == "comm" and nd["assign"] in ("create", "before") and v not in haspred and nd["amount"] > 0:
+                # Comm::set_source/set_destination already started it: a second start() is a user error (it restarts the comm).
+                # (They do not start a communication of 0 bytes: that one needs its explicit start().)
+                continue
             build.append(["wf_start", ref(v)])
     for v, nd in enumerate(nodes):
         if nd["assign"] == "after" or (nd["assign"] == "file" and missing(v)):
@@ -368,7 +388,7 @@ def scenario(case, path=None):
     for d, _, _, op in events:
         tl.append(["sleep_until", d])
         tl.append(op)
-    sc = {"cfg": s4u.SHARING_FREE_CFG, "platform": plat, "wf": {}, "quiet": ["adv", "actor"], "actors": []}
+    sc = {"cfg": s4u.SHARING_FREE_CFG, "platform": plat, "wf": {}, "quiet": ["actor"], "actors": []}
     waited = [v for v, nd in enumerate(nodes) if nd["kind"] in ("exec", "io")]
     if mode == "actor":
         ops = build + ([["wf_wait_each", waited]] if waited else [])
@@ -493,16 +513,25 @@ def check(case, log, oc, labels):
     for v, nd in enumerate(nodes):
         # a 0-byte communication whose assignment is completed after a vetoed start is never started by Comm::set_source/set_destination
         if nd["kind"] == "comm" and nd["amount"] == 0 and v not in starts:
-            zero_comm_blocked.add(v)
-    blocked = set()
-    for v in range(len(nodes)):                 # descendants of a blocked node cannot run either (indices are topological)
-        if v in zero_comm_blocked or any(u in blocked for u in preds[v]):
-            blocked.add(v)
+            done = all(u in ends for u in preds[v])
+            ready0 = max([T(ends[u][0]["t"]) for u in preds[v]], default=-math.inf) if done else None
+            if nd["assign"] == "veto" or (done and v in t_assign and t_assign[v] >= ready0):
+                zero_comm_blocked.add(v)
+    blocked = set(zero_comm_blocked)            # their descendants cannot run either
+    grew = True
+    while grew:
+        grew = False
+        for v in range(len(nodes)):
+            if v not in blocked and any(u in blocked for u in preds[v]):
+                blocked.add(v)
+                grew = True
     for v in sorted(zero_comm_blocked):
         if not any(u in blocked for u in preds[v]):
             oc.bad("zero-byte-comm-never-starts", "%s (a communication of 0 bytes, assigned and with all its dependencies solved) never started"
                    % nodes[v]["name"])
     nontrivial = False
+    advances = [T(l["t"]) for l in log.of("adv")]
+    wheres = effective_where(case, nodes, edges)
     for v, nd in enumerate(nodes):
         name = nd["name"]
         veto_assigned = nd["assign"] == "veto"
@@ -542,9 +571,18 @@ def check(case, log, oc, labels):
             oc.bad("start-date-wrong", "%s started at %r, expected %r = max(predecessors %r, assignment %r, start request %r)"
                    % (name, t0, exp0, ready, t_assign.get(v), req))
             continue
-        where = nd["where"]
+        where = wheres[v]
         dur = duration(nd, where, speeds)
-        if not close(t1 - t0, dur, t1):
+        slack = 0.0
+        if nd["kind"] == "io" and nd["amount"] > 0:
+            # the disk model moves an I/O forward by a whole number of bytes at every time advance (DiskS19Model::update_actions_state:
+            # rint(rate * delta)): up to half a byte is lost or gained whenever another event cuts the I/O's life
+            bw = DISK_R if where["op"] == "read" else DISK_W
+            cuts = sum(1 for x in advances if t0 < x <= t1 + 1.0)
+            slack = 0.5 * cuts / bw
+            if any(t0 < x < t1 and (x - t0) * bw != int((x - t0) * bw) for x in advances):
+                labels.add("io-cut-by-non-integral-step")
+        if not close(t1 - t0, dur, t1) and abs((t1 - t0) - dur) > slack:
             oc.bad("duration-wrong", "%s (%s, %r) ran %r -> %r = %r, expected %r" % (name, nd["kind"], nd["amount"], t0, t1, t1 - t0, dur))
             continue
         for key in ("start", "finish"):
